@@ -25,6 +25,10 @@ def call(ctx, fr, f, args, kwargs):
     o = ops()
     if f is o.NOOP:
         return None
+    if f is None:
+        # calling None (e.g. a method looked up on a None receiver after the AttributeError was recorded): TypeError
+        raise_if(ctx, fr, True, "TypeError")
+        return None
     if isinstance(f, RefMethod):
         return call_refmethod(ctx, fr, f, args, kwargs)
     if isinstance(f, BoundMethod):
@@ -537,6 +541,9 @@ def seq_sorted(ctx, fr, sl, key, reverse):
             keys.append(0)
         else:
             kv = call(ctx, fr, key, [d.el[k]], {}) if key is not None else d.el[k]
+            if isinstance(kv, SOpt):
+                raise_if(ctx, fr, kv.isnone, "TypeError")      # None is not orderable
+                kv = kv.val
             if isinstance(kv, bool) or not isinstance(kv, (int, SInt)):
                 fr.g = g0
                 raise Unsupported("sort key of type %s" % type(kv).__name__)
